@@ -62,6 +62,10 @@ def generate(rng, tier):
         lines += ['gb.set 0 1 2 3 4 5 0 6 7 57343 49152', 'gb.cyc 0 %d' % rng.randrange(1, 64), 'gb.obs 0', 'gb.frames 0 1', 'gb.obs 0', 'gb.cyc 0 %d' % rng.randrange(100, 2000), 'gb.obs 0']
         cases.append(('fr%d' % n, lines))
         n += 1
+    # a timer overflow in every position relative to the end of a frame: its request must be in IF when the frame is over
+    for a in (range(0, 256) if tier != 'quick' else range(100, 200)):
+        cases.append(('tfr%d' % a, ['gb.newloop 0 0 0 0', 'gb.cyc 0 %d' % a, 'gb.w 0 65295 0', 'gb.w 0 65285 187', 'gb.w 0 65287 4', 'gb.frames 0 1',
+                                    'gb.r 0 65295', 'gb.cyc 0 2', 'gb.r 0 65295', 'gb.obs 0']))
     from props import sysgen as _sg
     for rep in range(2 if tier == 'quick' else 12):
         cases.append(('fr%d' % n, _sg.key_case(rng, [0x10, 0x00, 0x3c, 0x18, 0xfd], n_events=4) + ['gb.frames 0 1', 'gb.obs 0']))
